@@ -40,6 +40,7 @@ func init() {
 	}
 	p.Harnesses = append(p.Harnesses,
 		HSpec{Prop: "C18", Pkg: L, Dir: "c18", Func: "VH_C18_Misuse", Reach: []string{"misuse/done", "misuse/bad-reset"}, Cfg: ite},
+		HSpec{Prop: "C18", Pkg: L, Dir: "c18", Func: "VH_C18_Reuse", Reach: []string{"reuse/done"}, Cfg: ite},
 		HSpec{Prop: "C18", Pkg: L, Dir: "c18", Func: "VH_C18_Div", Aux: true, Reach: []string{"div/done"}},
 		HSpec{Prop: "C18", Pkg: L, Dir: "c18", Func: "VH_C18_EmitBits", Aux: true, Reach: []string{"emitbits/done"}},
 	)
